@@ -47,6 +47,7 @@ MSG = 'TMsg'         # a message in a track as far as tracks.py / write_track lo
 OPT_INT = 'OptInt'    # None or an int (running_status_byte)
 INFILE = 'PyFile'     # a binary file being read: unread bytes and position (tell())
 EXTMSG = 'M'          # a message object built by code outside the translated fragment (passed in as `ext`)
+OBJ = 'PyObjV'         # a message object as frozen.py sees it: its class (by name) and its instance dict
 PORT = 'P'             # a port object built by the backend module's class (outside the fragment)
 KWARGS = 'KwArgs'      # the keyword arguments of a call as a dict: name -> None or a string (backend.py: only `api` is looked at)
 DEVICE = 'Device'     # an entry of a backend's device list: {'name': str, 'is_input': bool, 'is_output': bool}
@@ -88,6 +89,8 @@ def lty(t):
         return '(%s M)' % t[1]
     if t == ('Text',):
         return '(List Int)'
+    if t == OBJ:
+        return '(PyObj V)'
     if isinstance(t, tuple) and t[0] == 'Set':
         return '(List %s)' % lty(t[1])
     if isinstance(t, tuple) and t[0] == 'Opt':
@@ -137,11 +140,22 @@ class FnTranslator:
         return ''.join(f'{n} ' for n, _ in getattr(callee or self.unit, 'extra', []))
 
     # ---------- expressions -------------------------------------------------
+    def class_name(self, name):
+        mod = self.tr.module_of(self.unit.file)
+        v = getattr(mod, name, None)
+        if not isinstance(v, type):
+            raise Untranslatable(f'{name} is not a class')
+        self.tr.class_table(self.unit.file)
+        self.tr.classes_used.setdefault(self.unit.file, set()).add(v)
+        return '"%s"' % v.__name__
+
     def const_of_global(self, name):
         mod = self.tr.module_of(self.unit.file)
         if not hasattr(mod, name):
             raise Untranslatable(f'unknown name {name}')
         v = getattr(mod, name)
+        if isinstance(v, type) and getattr(self.unit, 'objects', False):
+            return self.class_name(name), STR          # a class used as a value: its name
         if isinstance(v, bool):
             return ('true' if v else 'false'), BOOL
         if isinstance(v, int):
@@ -567,6 +581,17 @@ class FnTranslator:
             if n == 'Parser' and not e.args and not e.keywords and getattr(self.unit, 'ext', False):
                 self.tr.class_fields('Parser')      # the class must be among the translated ones
                 return '({ messages := [], _tok := {} } : Parser M)', ('ObjM', 'Parser')
+            if n == 'isinstance' and len(e.args) == 2 and isinstance(e.args[1], ast.Name) and isinstance(e.args[0], ast.Name) \
+                    and self.env.get(e.args[0].id, (None, None))[1] in (OBJ, ('Opt', OBJ)):
+                # isinstance(obj, C): the class of the object is C or has C among its bases (the table CLASS_MRO is read off the
+                # classes of the working tree); None is an instance of none of them
+                a, t = self.expr(e.args[0])
+                tbl = self.tr.class_table(self.unit.file)
+                cname = self.class_name(e.args[1].id)
+                return (f'(isInstance {tbl} {a} {cname})' if t == OBJ else f'(optIsInstance {tbl} {a} {cname})'), BOOL
+            if n == 'vars' and len(e.args) == 1 and isinstance(e.args[0], ast.Name) and self.env.get(e.args[0].id, (None, None))[1] in (OBJ, ('Opt', OBJ)):
+                a, t = self.expr(e.args[0])
+                return (f'{a}.vars' if t == OBJ else f'(← optObj {a}).vars'), ('Raw', 'V')
             if n == 'isinstance' and len(e.args) == 2:
                 a, t = self.expr(e.args[0])
                 k = e.args[1]
@@ -709,6 +734,16 @@ class FnTranslator:
                 rec_part = ' '.join(f'{f.value.id}_{k}' for k in mu.params[0][1].fields)
                 fnp = ' '.join(getattr(mu, 'fn_params', {}))
                 return f'(← {mu.lean_name} {rec_part} {" ".join(a for a, _ in args)} {fnp})'.replace('  ', ' ').replace(' )', ')'), mu.ret
+        if isinstance(f, ast.Attribute) and f.attr == '__new__' and isinstance(f.value, ast.Name) and len(e.args) == 1 \
+                and isinstance(e.args[0], ast.Name) and e.args[0].id == f.value.id and getattr(self.unit, 'objects', False):
+            c, ct = self.expr(f.value)
+            if ct != STR:
+                raise Untranslatable('__new__ of ' + str(ct))
+            return f'({{ cls := {c}, vars := default }} : PyObj V)', OBJ       # a new object of that class with an empty instance dict
+        if isinstance(f, ast.Attribute) and f.attr == 'copy' and not e.args and not e.keywords and isinstance(f.value, ast.Name) \
+                and self.env.get(f.value.id, (None, None))[1] in (OBJ, ('Opt', OBJ)) and 'obj_copy' in getattr(self.unit, 'fn_params', {}):
+            a, t = self.expr(f.value)
+            return (f'(← obj_copy {a})' if t == OBJ else f'(← obj_copy (← optObj {a}))'), OBJ      # the message's own copy(): a parameter
         if isinstance(f, ast.Attribute) and f.attr == 'get' and isinstance(f.value, ast.Attribute) and f.value.attr == 'environ' \
                 and isinstance(f.value.value, ast.Name) and f.value.value.id == 'os' and len(e.args) == 1 and not e.keywords \
                 and 'environ_get' in getattr(self.unit, 'fn_params', {}):
@@ -1007,6 +1042,9 @@ class FnTranslator:
                 raise Untranslatable('keyword dict entry')
             out.append(f'{ind}{tgt.value.id} := kwSet {tgt.value.id} {k} {val}')
             return
+        if isinstance(tgt, ast.Name) and vt == OBJ:
+            self.fresh_objects = dict(getattr(self, 'fresh_objects', {}))
+            self.fresh_objects[tgt.id] = 'vars := default' in val
         if isinstance(tgt, ast.Name):
             n = tgt.id
             hint = getattr(self.unit, 'local_types', {}).get(n)
@@ -1129,6 +1167,8 @@ class FnTranslator:
             v = '()'
         else:
             v, t = self.expr(e)
+            if isinstance(self.unit.ret, tuple) and self.unit.ret[0] == 'Opt' and t == self.unit.ret[1]:
+                v = f'(some {v})'
         if files:
             return '(' + ', '.join([v] + files) + ')'
         return v
@@ -1509,6 +1549,18 @@ class FnTranslator:
                 if vt not in (LINT, ('Text',)):
                     raise Untranslatable('write of ' + str(vt))
                 return [f'{ind}{f.value.id} := {f.value.id} ++ {v}']
+            if f.attr == 'update' and len(e.args) == 1 and not e.keywords and isinstance(f.value, ast.Call) \
+                    and isinstance(f.value.func, ast.Name) and f.value.func.id == 'vars' and len(f.value.args) == 1 \
+                    and isinstance(f.value.args[0], ast.Name) and self.env.get(f.value.args[0].id, (None, None))[1] == OBJ \
+                    and f.value.args[0].id in self.muts:
+                # vars(new).update(vars(old)) on an object that was just made by __new__ (empty instance dict): it gets the entries
+                tgt = f.value.args[0].id
+                v, vt = self.expr(e.args[0])
+                if vt != ('Raw', 'V'):
+                    raise Untranslatable('update with ' + str(vt))
+                if getattr(self, 'fresh_objects', {}).get(tgt) is not True:
+                    raise Untranslatable('update of the instance dict of an object that is not fresh')
+                return [f'{ind}{tgt} := {{ {tgt} with vars := {v} }}']
             if f.attr == 'update' and len(e.args) == 1 and not e.keywords and isinstance(f.value, ast.Name) \
                     and self.env.get(f.value.id, (None, None))[1] == KWARGS and isinstance(e.args[0], ast.Call) \
                     and isinstance(e.args[0].func, ast.Name) and e.args[0].func.id == 'dict' and not e.args[0].args \
@@ -1975,6 +2027,19 @@ class Translator:
         self.mods = {}
         self.failures = []
 
+    def class_table(self, file):
+        """CLASS_MRO_<file>: class name -> names of the classes in its method resolution order (itself first), for the classes
+        the translated functions of the file mention; read off the live classes of the working tree"""
+        if not hasattr(self, 'classes_used'):
+            self.classes_used = {}
+        self.classes_used.setdefault(file, set())
+        return 'CLASS_MRO_' + os.path.basename(file)[:-3]
+
+    def class_tables_text(self, file):
+        cs = sorted(getattr(self, 'classes_used', {}).get(file, ()), key=lambda c: c.__name__)
+        rows = ', '.join('("%s", [%s])' % (c.__name__, ', '.join('"%s"' % b.__name__ for b in c.__mro__ if b is not object)) for c in cs)
+        return f'def {self.class_table(file)} : List (String × List String) := [{rows}]'
+
     def module_of(self, file):
         if file not in self.mods:
             name = file[:-3].replace('/', '.')
@@ -2138,7 +2203,7 @@ class Translator:
     GROUPS = {'mido/messages/encode.py': 'Codec', 'mido/messages/decode.py': 'Codec', 'mido/messages/checks.py': 'Codec',
               'mido/tokenizer.py': 'Tok', 'mido/midifiles/meta.py': 'MetaNum', 'mido/midifiles/tracks.py': 'Tracks',
               'mido/midifiles/midifiles.py': 'FileIO', 'mido/parser.py': 'Parser', 'mido/ports.py': 'Ports', 'mido/syx.py': 'Syx', 'mido/sockets.py': 'Sockets'}
-    DEPS = {'Codec': [], 'Msg': ['Codec'], 'Tok': [], 'Parser': ['Tok'], 'Ports': [], 'Charset': [], 'Syx': ['Tok', 'Parser'], 'Sockets': [], 'Backend': [], 'Timing': [], 'MetaNum': [], 'Tracks': [], 'FileIO': ['MetaNum', 'Tracks']}
+    DEPS = {'Codec': [], 'Msg': ['Codec'], 'Tok': [], 'Parser': ['Tok'], 'Ports': [], 'Charset': [], 'Syx': ['Tok', 'Parser'], 'Sockets': [], 'Backend': [], 'Frozen': [], 'Timing': [], 'MetaNum': [], 'Tracks': [], 'FileIO': ['MetaNum', 'Tracks']}
 
     def run_groups(self):
         """one generated file per group of source files, so that a function that cannot be translated (or an edit that
@@ -2175,6 +2240,10 @@ class Translator:
                 self.failures.append(f'{u.file}:{(getattr(u, "pycls", None) or u.cls or "")}.{u.name}: {e}')
                 defs.append(f'-- NOT TRANSLATED: {u.lean_name}: {e}')
         per['Codec'].append(self.name_tables())
+        for file in sorted(getattr(self, 'classes_used', {})):
+            g = next((getattr(u, 'group', None) or self.GROUPS[u.file] for u in self.units if u.file == file and getattr(u, 'objects', False)), None)
+            if g is not None:
+                per[g].insert(0, self.class_tables_text(file))
         note = '/- GENERATED by harness/py2lean.py from the SOURCE TEXT of the mido working tree. Do not edit. -/'
         out['SrcTables'] = '\n\n'.join([note + '\nimport MidoModel.PySem\nnamespace Mido.Src\nopen Mido Mido.Py\n'] +
                                         list(self.tables.values()) + ['end Mido.Src', ''])
@@ -2347,6 +2416,14 @@ def units():
     u.module_has = {'IOPort': 'module_has_IOPort'}
     u.hoist = True
     U.append(u)
+    FZ = 'mido/frozen.py'
+    for nm, ret, copy in (('is_frozen', BOOL, False), ('freeze_message', ('Opt', OBJ), False), ('thaw_message', ('Opt', OBJ), True)):
+        u = Unit(FZ, nm, [('msg', ('Opt', OBJ))], ret)
+        u.group, u.objects, u.hoist = 'Frozen', True, True
+        u.type_params = '{V : Type} [Inhabited V]'
+        if copy:
+            u.fn_params = {'obj_copy': 'PyObj V → Except Err (PyObj V)'}
+        U.append(u)
     u = Unit('mido/syx.py', 'write_syx_file', [('messages', LIST(EXTMSG)), ('plaintext', BOOL)], NONE)
     u.ext, u.written_file, u.untyped_params = True, 'outfile', ('filename',)
     U.append(u)
